@@ -114,6 +114,8 @@ def frozen(t: str, v: str) -> bool:
     pre: '?' not in t and ':' not in t
     post: _
     """
+    if env.CACHES:
+        env.clear_caches()
     sid = Sid(PRE + t + SUF)
     before = _snap(sid)
     uri, h = sid.uri, None
@@ -143,6 +145,11 @@ def frozen(t: str, v: str) -> bool:
     elif op == 4:
         sid.get_with(query=k_last + "=" + v + "x")
         sid.get_with(query="zz=1")
+        # queries made of optional ('~') values only, through get_with and as a string
+        sid.get_with(query=k_last + "=~" + v + "x")
+        sid.get_with(query=k_first + "=~" + v + "&" + k_last + "=~" + v)
+        Sid(PRE + t + SUF + "?" + k_last + "=~" + v + "x")
+        Sid(sid.uri + "?" + k_first + "=~" + v + "x")
     elif op == 5:
         p = sid.parent
         p.fields.clear()
@@ -189,6 +196,8 @@ def frozen(t: str, v: str) -> bool:
         return fail("sid-changed-by-operation")
     if sid.uri != uri:
         return fail("uri-changed")
+    if _snap(Sid(PRE + t + SUF)) != before or (sid and _snap(Sid(uri)) != before):
+        return fail("later-sids-of-that-string-changed")      # other Sids with the same string (shared cached state)
     return True
 
 
